@@ -399,3 +399,137 @@ func dominatesInstr(a, b ssa.Instruction) bool {
 	}
 	return a.Block().Dominates(b.Block())
 }
+
+// ---- values through helper parameters ----
+
+// callerArgs: what the call sites of pr's function pass for pr; nil when the function has no known call site.
+func (p *Prog) callerArgs(pr *ssa.Parameter) []ssa.Value {
+	g := pr.Parent()
+	idx := -1
+	for i, q := range g.Params {
+		if q == pr {
+			idx = i
+		}
+	}
+	if idx < 0 {
+		return nil
+	}
+	var out []ssa.Value
+	for _, cs := range p.CallersOf(g) {
+		args := cs.Common().Args
+		if cs.Common().IsInvoke() || idx >= len(args) {
+			return nil
+		}
+		out = append(out, args[idx])
+	}
+	return out
+}
+
+// through: v satisfies pred, or v is (a conversion of) a parameter for which every call site passes a value that
+// does - at most three helper levels up. A function value that escapes has no complete list of call sites; only
+// functions of the module that are called statically are followed.
+func (p *Prog) through(v ssa.Value, pred func(ssa.Value) bool) bool {
+	return p.throughD(v, pred, 0)
+}
+
+func (p *Prog) throughD(v ssa.Value, pred func(ssa.Value) bool, depth int) bool {
+	if pred(v) {
+		return true
+	}
+	u := unconv(v)
+	if u != v && pred(u) {
+		return true
+	}
+	pr, ok := u.(*ssa.Parameter)
+	if !ok || depth >= 3 || p.isExported(pr.Parent()) {
+		return false
+	}
+	args := p.callerArgs(pr)
+	if len(args) == 0 {
+		return false
+	}
+	for _, a := range args {
+		if !p.throughD(a, pred, depth+1) {
+			return false
+		}
+	}
+	return true
+}
+
+// isExported: the function can be called from outside the module (exported name on an exported or no receiver).
+func (p *Prog) isExported(f *ssa.Function) bool {
+	if f == nil || f.Object() == nil {
+		return false
+	}
+	return f.Object().Exported()
+}
+
+// liftMay: ins satisfies pred, or is a call that may (transitively, through module functions) execute one that does.
+func (p *Prog) liftMay(pred InstrPred) InstrPred {
+	return func(ins ssa.Instruction) bool {
+		if pred(ins) {
+			return true
+		}
+		if ci, ok := ins.(ssa.CallInstruction); ok {
+			return p.SiteMayReach(ci, pred)
+		}
+		return false
+	}
+}
+
+// directHolder: f if one of its own instructions satisfies pred, else the one module function called by f
+// (at most two levels down) that does; nil when there is none or more than one.
+func (p *Prog) directHolder(f *ssa.Function, pred InstrPred) *ssa.Function {
+	cur := []*ssa.Function{f}
+	for depth := 0; depth < 3 && len(cur) > 0; depth++ {
+		var hit []*ssa.Function
+		for _, g := range cur {
+			has := false
+			eachInstr(g, func(ins ssa.Instruction) {
+				if pred(ins) {
+					has = true
+				}
+			})
+			if has {
+				hit = append(hit, g)
+			}
+		}
+		if len(hit) == 1 {
+			return hit[0]
+		}
+		if len(hit) > 1 {
+			return nil
+		}
+		var next []*ssa.Function
+		seen := map[*ssa.Function]bool{}
+		for _, g := range cur {
+			for _, h := range p.DirectCallees(g) {
+				if !seen[h] && h.Pkg == f.Pkg {
+					seen[h] = true
+					next = append(next, h)
+				}
+			}
+		}
+		cur = next
+	}
+	return nil
+}
+
+// singleStore: for a local cell that is stored to exactly once (`first := xs[0]` whose address is taken for a field
+// read), the value stored; any other value is returned unchanged.
+func singleStore(v ssa.Value) ssa.Value {
+	al, ok := v.(*ssa.Alloc)
+	if !ok || al.Heap {
+		return v
+	}
+	var stored []ssa.Value
+	for _, ref := range *al.Referrers() {
+		if st, ok := ref.(*ssa.Store); ok && st.Addr == ssa.Value(al) {
+			stored = append(stored, st.Val)
+		}
+	}
+	if len(stored) == 1 {
+		return stored[0]
+	}
+	return v
+}
